@@ -73,6 +73,9 @@ func countWorkers(buf []byte, owner int) int {
 }
 
 func execPool(sc *PoolSc, choose poolChooser) (PoolObs, []string) {
+	if hangCount >= maxHangs {
+		return PoolObs{Points: []PoolPoint{}, ExecCounts: []int{}}, []string{"bad:skipped-after-hangs"}
+	}
 	type result struct {
 		obs PoolObs
 		ds  []string
@@ -95,7 +98,7 @@ func execPool(sc *PoolSc, choose poolChooser) (PoolObs, []string) {
 		var decisions []string
 		st := poolState{workers: w}
 		waitQ := func() bool {
-			deadline := time.Now().Add(15 * time.Second)
+			deadline := time.Now().Add(6 * time.Second)
 			stable := 0
 			for time.Now().Before(deadline) {
 				if quiescentOf(buf, -1, owner) {
@@ -176,6 +179,7 @@ func execPool(sc *PoolSc, choose poolChooser) (PoolObs, []string) {
 			obs.Points = append(obs.Points, PoolPoint{Parked: parked, SubmitRet: int(atomic.LoadInt32(&submitRet)), WaitDone: int(atomic.LoadInt32(&waitDone))})
 			if !ok {
 				decisions = append(decisions, "bad:no-quiescence")
+				hangCount++
 				break
 			}
 		}
